@@ -8,10 +8,10 @@ the non-test source, grouped by module; the obligation below says that this grou
 import WowSrp.Gen.Constants
 namespace WowSrp
 
-def expected_structuralAux : List String := ["MatrixCard @src/matrix_card.rs: Clone Ord PartialOrd Eq PartialEq Hash",
-  "MatrixCardPrinter @src/matrix_card.rs: Clone",
-  "MatrixCardVerifier @src/matrix_card.rs: Clone"]
+def expected_structuralAux : List String := ["MatrixCard @src/matrix_card.rs: Clone Ord PartialOrd Eq PartialEq Hash | digit_count u8 width u8 height u8 data",
+  "MatrixCardPrinter @src/matrix_card.rs: Clone | chunks a",
+  "MatrixCardVerifier @src/matrix_card.rs: Clone | challenge_count u8 height u8 width u8 coordinates hmac rc4 Rc4"]
 
-theorem structuralAux_ok : Gen.structuralAux = expected_structuralAux := by decide
+theorem structuralAux_ok : Gen.structuralAux = expected_structuralAux := by decide +kernel
 
 end WowSrp
